@@ -19,7 +19,10 @@ Streams
 import itertools
 from fractions import Fraction as F
 
-import numpy as np
+import os
+for _v in ('OMP_NUM_THREADS', 'OPENBLAS_NUM_THREADS', 'MKL_NUM_THREADS'):
+    os.environ.setdefault(_v, '2')   # small matrices only: BLAS threading is pure overhead here
+import numpy as np  # noqa: E402
 
 from common import Stream, budget, rng_for, to_gq, from_gq, show
 
@@ -209,7 +212,7 @@ def stream_chemist(ctx):
     from openfermion.circuits import low_rank
     from openfermion.chem.molecular_data import spinorb_from_spatial
     rng = rng_for(ctx.seed, 'c17-chemist')
-    N = budget(ctx.tier, 60, 500)
+    N = budget(ctx.tier, 60, 1500)
     if ctx.drift:
         N = max(N, 200)
     reqs, keep = [], []
@@ -282,7 +285,7 @@ def stream_lowrank(ctx):
     from openfermion.circuits import low_rank
     from openfermion.chem.molecular_data import spinorb_from_spatial
     rng = rng_for(ctx.seed, 'c17-lowrank')
-    N = budget(ctx.tier, 40, 300)
+    N = budget(ctx.tier, 40, 900)
     if ctx.drift:
         N = max(N, 120)
     reqs, keep = [], []
@@ -376,7 +379,7 @@ def stream_lowrank(ctx):
             elif not a['minimal']:
                 s.violate('rank %d is not the smallest rank >= 1 within the threshold' % L, cc2, ret)
     # ---- prepare_one_body_squared_evolution
-    M = budget(ctx.tier, 40, 300)
+    M = budget(ctx.tier, 40, 900)
     for t in range(M):
         n = rng.choice([1, 2, 2, 3])
         spin = rng.random() < 0.6
@@ -446,7 +449,7 @@ def stream_integrals(ctx):
     from openfermion.ops.representations import interaction_operator as io
     from openfermion.transforms import freeze_orbitals, get_fermion_operator, normal_ordered
     rng = rng_for(ctx.seed, 'c17-integrals')
-    N = budget(ctx.tier, 30, 200)
+    N = budget(ctx.tier, 30, 600)
     if ctx.drift:
         N = max(N, 80)
     reqs, keep = [], []
@@ -621,7 +624,7 @@ def stream_rdm(ctx):
     from openfermion.utils import rdm_mapping_functions as Rm
     from openfermion.measurements import get_interaction_rdm
     rng = rng_for(ctx.seed, 'c17-rdm')
-    N_ = budget(ctx.tier, 40, 300)
+    N_ = budget(ctx.tier, 40, 900)
     if ctx.drift:
         N_ = max(N_, 120)
     reqs, keep = [], []
